@@ -12,7 +12,7 @@ import (
 func init() {
 	register(&propInfo{
 		ID:          "C11",
-		Explanation: "Path and value-origin analysis of the error path between handler and caller: (R11.1) the server's error constructor returns a non-nil pointer on every path; the dispatcher sets the reply's error exactly on the branch where the handler's error is non-nil, and sets the result only where the reply's error is nil; (R11.2) on the client, every failed conversion of a registered error type returns the generic error value itself (never nil, never a dereferenced or zero value), and conversion is attempted only for a non-nil reply error; (R11.3) the error registry's Register updates both directions with the same (type, code) pair, the server looks the code up under the dynamic type of the very error the handler returned, and message/code of the generic error come from that error; (R11.4) on transport or local failures the generated client function returns the zero value of the declared result type and a non-nil client error wrapping the cause. (R11.6) every use of a message writer in the library package is json.NewEncoder, or a Write of a constant, of a json.Marshal result or of a writer wrapper's own parameter: no hand-formatted reply. (R11.7) on the client call path reflect.Value.Set is never applied to a Value kept in a field of a long-lived object; (R11.8) no Go quoting under a MarshalJSON method.",
+		Explanation: "Path and value-origin analysis of the error path between handler and caller: (R11.1) the server's error constructor returns a non-nil pointer on every path; the dispatcher sets the reply's error exactly on the branch where the handler's error is non-nil, and sets the result only where the reply's error is nil; (R11.2) on the client, every failed conversion of a registered error type returns the generic error value itself (never nil, never a dereferenced or zero value), and conversion is attempted only for a non-nil reply error; (R11.3) the error registry's Register updates both directions with the same (type, code) pair, the server looks the code up under the dynamic type of the very error the handler returned, and message/code of the generic error come from that error; (R11.4) on transport or local failures the generated client function returns the zero value of the declared result type and a non-nil client error wrapping the cause. (R11.6) every use of a message writer in the library package is json.NewEncoder, or a Write of a constant, of a json.Marshal result or of a writer wrapper's own parameter: no hand-formatted reply. (R11.7) on the client call path reflect.Value.Set is never applied to a Value kept in a field of a long-lived object; (R11.8) no Go quoting under a MarshalJSON method. (R11.9) the server's error constructor does not search the Unwrap chain; (R11.10) the decoding interfaces are asked of the pointer made by reflect.New.",
 		NotDecided:  "Type/content round trip of registered error types and message bytes (values through encoding/json and user codecs).",
 		Assumptions: []string{"Errors.Register, NewErrors, ErrClient and JSONRPCError are resolved by their exported names (public API)"},
 		Run:         runC11,
@@ -48,6 +48,26 @@ func runC11(c *Ctx) {
 		if sig.Results().Len() == 1 && types.Identical(sig.Results().At(0).Type(), ptrErr) && sig.Params().Len() == 1 && isErrorType(sig.Params().At(0).Type()) {
 			mkErr = fn
 		}
+	}
+	c.rule("R11.9", "the reply describes the error the handler returned: the server's error constructor looks at that error itself, never at something found in its Unwrap chain (errors.As / errors.Is / errors.Unwrap)")
+	if mkErr != nil {
+		var chain ssa.Instruction
+		p.coneInstrs(mkErr, func(in ssa.Instruction) {
+			if ci, ok := in.(ssa.CallInstruction); ok {
+				switch calleeName(ci) {
+				case "errors.As", "errors.Is", "errors.Unwrap", "golang.org/x/xerrors.As", "golang.org/x/xerrors.Is", "golang.org/x/xerrors.Unwrap":
+					chain = in
+				}
+			}
+		})
+		cons := fmt.Sprintf("%s: which error is converted", fname(mkErr))
+		if chain != nil {
+			c.bad("R11.9", cons, c.ipos(chain), "the error constructor searches the Unwrap chain of the handler's error: an error that merely wraps a codec / registered error goes out as the inner one — the handler's message and code are lost and the caller gets a typed error the handler never returned")
+		} else {
+			c.ok("R11.9", cons, p.pos(mkErr.Pos()), "the returned error itself (type switch / assertion), no chain walk")
+		}
+	} else {
+		c.und("R11.9", "server error constructor", "-", "not resolved")
 	}
 	if c.need("R11.1", "server error constructor", mkErr != nil) {
 		construct := fmt.Sprintf("%s: returned error object", fname(mkErr))
@@ -251,6 +271,43 @@ func runC11(c *Ctx) {
 			}
 			if types.Identical(fn.Signature.Recv().Type(), ptrErr) && fn.Signature.Results().Len() == 1 && isNamed(fn.Signature.Results().At(0).Type(), "reflect", "Value") {
 				val = fn
+			}
+		}
+		c.rule("R11.10", "whether a registered error type can be filled from the wire error is asked of the pointer to the freshly made value (where pointer-receiver methods are visible), never of its value form")
+		if val != nil {
+			nq := 0
+			isElem := func(v ssa.Value) bool {
+				return c.someOrigin(v, func(a apath) bool {
+					call, ok := a.Root.(*ssa.Call)
+					return ok && calleeName(call) == "(reflect.Value).Elem" && len(a.Fields) == 0
+				})
+			}
+			p.coneInstrs(val, func(in ssa.Instruction) {
+				var subject ssa.Value
+				switch x := in.(type) {
+				case *ssa.TypeAssert:
+					if _, isIface := x.AssertedType.Underlying().(*types.Interface); !isIface {
+						return
+					}
+					if call, ok := x.X.(*ssa.Call); ok && calleeName(call) == "(reflect.Value).Interface" {
+						subject = call.Common().Args[0]
+					}
+				case *ssa.Call:
+					if x.Common().IsInvoke() && x.Common().Method.Name() == "Implements" {
+						if tc, ok := x.Common().Value.(*ssa.Call); ok && calleeName(tc) == "(reflect.Value).Type" {
+							subject = tc.Common().Args[0]
+						}
+					}
+				}
+				if subject == nil {
+					return
+				}
+				nq++
+				c.check(!isElem(subject), "R11.10", fmt.Sprintf("%s: value asked for its decoding interface", fname(val)), c.ipos(in), "the pointer made by reflect.New",
+					"the decoding interface is looked for on the value form of the registered type (…Elem()): a type registered as T whose FromJSONRPCError / UnmarshalJSON have pointer receivers is not recognised, no conversion runs and the caller gets the right type with empty content")
+			})
+			if nq == 0 {
+				c.und("R11.10", fname(val)+": interface tests", p.pos(val.Pos()), "no Implements / type assertion on a made value found")
 			}
 		}
 		if c.need("R11.2", "client error reconstruction method", val != nil) {
